@@ -262,6 +262,7 @@ namespace sim
     prm = p;
     st = SchedStats();
     st.dev = devbuf;
+    st.preempt_on = p.preempt != 0;
     for (int i = 0; i < MAXT; ++i)
       {
         tasks[i].state = 0;
